@@ -9,13 +9,13 @@ git -C /repo worktree add -q --detach $wt HEAD || exit 2
 cd $wt
 res=""
 make >/dev/null 2>&1 || { echo "base build failed"; exit 2; }
-gcc -w -Iinclude -DHAVE_LIBIDN2 -D_DEFAULT_SOURCE $src/demo.c libeav.a -lidn2 -o /tmp/val_demo_$name 2>/tmp/val_cc_$name.log || { echo "demo does not compile on base: $(head -3 /tmp/val_cc_$name.log)"; }
+gcc -w -Iinclude -DHAVE_LIBIDN2 -D_DEFAULT_SOURCE $src/demo.c libeav.a -lidn2 ${DEMO_FLAGS:-} -o /tmp/val_demo_$name 2>/tmp/val_cc_$name.log || { echo "demo does not compile on base: $(head -3 /tmp/val_cc_$name.log)"; }
 /tmp/val_demo_$name >/dev/null 2>&1; base_demo=$?
 git apply $src/patch.diff || { echo "patch does not apply"; git -C /repo worktree remove --force $wt; exit 2; }
 make clean >/dev/null 2>&1; make > /tmp/val_build_$name.log 2>&1; build=$?
 warns=$(grep -ci "warning" /tmp/val_build_$name.log)
 make check > /tmp/val_check_$name.log 2>&1; tests=$?
-gcc -w -Iinclude -DHAVE_LIBIDN2 -D_DEFAULT_SOURCE $src/demo.c libeav.a -lidn2 -o /tmp/val_demo_$name 2>/dev/null
+gcc -w -Iinclude -DHAVE_LIBIDN2 -D_DEFAULT_SOURCE $src/demo.c libeav.a -lidn2 ${DEMO_FLAGS:-} -o /tmp/val_demo_$name 2>/dev/null
 /tmp/val_demo_$name > /tmp/val_demo_out_$name.log 2>&1; mut_demo=$?
 echo "seed=$name build=$build warnings=$warns tests_exit=$tests demo_on_base=$base_demo demo_on_mutant=$mut_demo"
 cd /; git -C /repo worktree remove --force $wt; rm -f /tmp/val_demo_$name
